@@ -328,7 +328,10 @@ def symint(x=0, *a):
     if isinstance(x, SymReal):
         if z3.is_rational_value(x.e) and x.e.denominator_as_long() == 1:
             return x.e.numerator_as_long()
-        raise Inconclusive("int() of a symbolic value")
+        # Python's int() truncates toward zero
+        t = z3.If(x.e >= 0, z3.ToReal(z3.ToInt(x.e)), -z3.ToReal(z3.ToInt(-x.e)))
+        _hit("int(symbol) -> truncation")
+        return SymReal(t)
     return builtins.int(x, *a)
 
 
